@@ -283,6 +283,7 @@ func c13(r *report.Run) {
 			}
 			var mutants []*gen.Expr
 			var kinds []string
+			var faultAt map[int]string // mutant index -> path of the node the error belongs to (default: the mutated construct)
 			switch {
 			case x.R.Op == "var":
 				mutants = append(mutants, replacePath(e, pth, &gen.Expr{R: gen.Var("Zz", x.R.Out)}))
@@ -301,6 +302,16 @@ func c13(r *report.Run) {
 					mutants = append(mutants, replacePath(e, pth+".1", wrongLit(lt)))
 					kinds = append(kinds, "operand-mismatch")
 				}
+			case x.R.Op == "slice" && len(x.Kids) > 1:
+				// every bound replaced by a string literal: the fault is the bound, not the slice
+				for bi := 1; bi < len(x.Kids); bi++ {
+					mutants = append(mutants, replacePath(e, fmt.Sprintf("%s.%d", pth, bi), wrongLit(gen.TInt)))
+					kinds = append(kinds, fmt.Sprintf("slice-bound-mismatch@%d", bi))
+					if faultAt == nil {
+						faultAt = map[int]string{}
+					}
+					faultAt[len(mutants)-1] = fmt.Sprintf("%s.%d", pth, bi)
+				}
 			case x.R.Op == "un":
 				mutants = append(mutants, replacePath(e, pth+".0", wrongLit(x.R.In[0].T)))
 				kinds = append(kinds, "unary-operand-mismatch")
@@ -314,6 +325,9 @@ func c13(r *report.Run) {
 				for _, l := range c13Layouts {
 					src, anchors := c13Text(mu, l)
 					want, ok := anchors[pth]
+					if fp, has := faultAt[mi]; has {
+						want, ok = anchors[fp]
+					}
 					if !ok {
 						continue
 					}
